@@ -212,7 +212,8 @@ func (s *Datastore) read(ctx context.Context, store string, filter storage.ReadF
 				"user_object_id": userObjectID,
 			})
 		}
-		if userRelation != "" {
+		if userRelation != "" || userObjectID != "" {
+			// a user without a relation ("type:id") must not match the usersets "type:id#relation"
 			sb = sb.Where(sq.Eq{
 				"user_relation": userRelation,
 			})
@@ -821,9 +822,8 @@ func (s *Datastore) ReadStartingWithUser(
 			"user_object_type": userObjectType,
 			"user_object_id":   userObjectID,
 		}
-		if userRelation != "" {
-			targetUser["user_relation"] = userRelation
-		}
+		// a user without a relation ("type:id") must not match the usersets "type:id#relation"
+		targetUser["user_relation"] = userRelation
 		targetUsersArg = append(targetUsersArg, targetUser)
 	}
 
